@@ -54,6 +54,31 @@ def insert_virtual(rng, case):
             j += 1
         if not (j < len(body) and body[j] == '|'):
             out.append(('{' + body[:j] + '.([#V])' + body[j:] + '}.' + rest, 'branch-middle'))
+    # zero-order ring bonds between two real nodes that are not adjacent / a virtual node zero-bonded to two real nodes
+    if '9' not in body and '8' not in body and '%' not in body and '|' not in body:
+        try:
+            from cgsmiles.read_cgsmiles import read_cgsmiles
+            g = read_cgsmiles('{' + body + '}')
+            occ = [m.end() for m in re.finditer(r'\[#[^\]]*\]', body)]
+            if len(occ) == len(g) and len(g) >= 2:
+                pairs = [(i, j) for i in range(len(g)) for j in range(i + 1, len(g))]
+                rng.shuffle(pairs)
+                done = 0
+                for i, j in pairs:
+                    if done >= 2:
+                        break
+                    if g.has_edge(i, j):
+                        continue
+                    b2 = body[:occ[i]] + '.9' + body[occ[i]:occ[j]] + '9' + body[occ[j]:]
+                    out.append(('{' + b2 + '}.' + rest, 'zero-edge'))
+                    done += 1
+                inner = [(i, j) for i, j in pairs if j != len(g) - 1]
+                if inner:
+                    i, j = inner[0]
+                    b2 = body[:occ[i]] + '.8' + body[occ[i]:occ[j]] + '.9' + body[occ[j]:] + '.[#V]89'
+                    out.append(('{' + b2 + '}.' + rest, 'bridge'))
+        except Exception:    # noqa: BLE001
+            pass
     return out
 
 
